@@ -49,8 +49,25 @@ func CheckDelivery(c Config, o *Outcome) (bad, pending []string) {
 			}
 		}
 	default:
+		// interface-typed streams: the special items (nil interface value, typed-nil pointer) carry no input identity;
+		// they are compared by count, the ordinary items per input and in order
 		per := make([][]int, len(c.Items))
+		want := make([][]int, len(c.Items))
+		sentSpecial, gotSpecial := map[int]int{}, map[int]int{}
+		for i, its := range c.Items {
+			for _, v := range its {
+				if IsIface(c.Variant) && v < 100 {
+					sentSpecial[v]++
+				} else {
+					want[i] = append(want[i], v)
+				}
+			}
+		}
 		for _, v := range o.Got[0] {
+			if IsIface(c.Variant) && (v == NilItem || v == NilPtrItem) {
+				gotSpecial[v]++
+				continue
+			}
 			i := InputOf(v)
 			if i < 0 || i >= len(per) {
 				bad = append(bad, fmt.Sprintf("received %d which no input sent", v))
@@ -58,12 +75,18 @@ func CheckDelivery(c Config, o *Outcome) (bad, pending []string) {
 			}
 			per[i] = append(per[i], v)
 		}
+		for _, sp := range []int{NilItem, NilPtrItem} {
+			if sentSpecial[sp] != gotSpecial[sp] {
+				name := map[int]string{NilItem: "nil interface values", NilPtrItem: "typed-nil pointers in a non-nil interface"}[sp]
+				bad = append(bad, fmt.Sprintf("items sent %v: %d %s were sent, %d received (received in all: %v)", c.Items, sentSpecial[sp], name, gotSpecial[sp], o.Got[0]))
+			}
+		}
 		for i := range per {
-			if !eqInts(per[i], c.Items[i]) {
-				msg := fmt.Sprintf("items of input %d received as %v, sent %v (exactly once, in order)", i, per[i], c.Items[i])
+			if !eqInts(per[i], want[i]) {
+				msg := fmt.Sprintf("items of input %d received as %v, sent %v (exactly once, in order)", i, per[i], want[i])
 				srt := append([]int{}, per[i]...)
 				sort.Ints(srt)
-				if c.Duplicated(i) && eqInts(srt, c.Items[i]) {
+				if c.Duplicated(i) && eqInts(srt, want[i]) {
 					msg = fmt.Sprintf("input %d is given at several positions %v and its items arrive reordered (witness class dupchan-order): %s", i, c.Slice, msg)
 				}
 				bad = append(bad, msg)
@@ -286,6 +309,14 @@ func CheckDo(c Config, o *Outcome, log []vsched.Event) []string {
 				}
 			}
 		}
+	}
+	return bad
+}
+
+// MutateNote names the witness class of a failure on a configuration whose caller reuses its list.
+func MutateNote(c Config, bad []string) []string {
+	if c.Mutate && len(bad) > 0 {
+		bad = append(bad, "the caller overwrote its list right after the call: the join still read the list after it returned (witness class joinsc-list-read-after-return)")
 	}
 	return bad
 }
